@@ -83,6 +83,10 @@ type c14Interp struct {
 
 var c14Greek = []string{"α", "β", "γ"}
 
+// c14Latin: two characters below U+0100 that no query text uses; the enumeration of current_char_conversion/2 with both
+// arguments unbound covers exactly the first 256 characters here
+var c14Latin = []string{"µ", "ø"}
+
 func (c14) Exec(r *kit.Run) {
 	g := r.Tape.Lane("gen")
 	nI := 2 + g.Choose(3)
@@ -116,6 +120,9 @@ func (c14) Exec(r *kit.Run) {
 				op.Arg2 = [][]string{{"codes", "chars", "atom"}, {"error", "fail", "warning"}, {"on", "off"}, {"on", "off"}}[f][g.Choose([]int{3, 3, 2, 2}[f])]
 			case "conv":
 				op.Arg, op.Arg2 = c14Greek[g.Choose(3)], c14Greek[g.Choose(3)]
+				if g.Choose(3) == 0 {
+					op.Arg, op.Arg2 = c14Latin[g.Choose(2)], c14Latin[g.Choose(2)]
+				}
 			case "write-user", "write-cur":
 				op.Arg = fmt.Sprintf("w%d", n)
 			case "intern":
@@ -180,7 +187,8 @@ func (c14) Exec(r *kit.Run) {
 			"current_char_conversion('α', A), current_char_conversion('β', B), current_char_conversion('γ', C)",
 			"catch(findall(X, who(X), L), _, L = none)",
 			"catch(findall(X, clause(term_expansion(X, _), _), L), _, L = none)",
-			"findall(P-S-N, current_op(P, S, N), Tmp), length(Tmp, N)", // (the list itself is in map order: only its length)
+			"findall(c(X, Y), (current_char_conversion(X, Y), X \\== Y), Tmp), sort(Tmp, L)", // the whole table, enumerated
+			"findall(P-S-N, current_op(P, S, N), Tmp), length(Tmp, N)",                       // (the list itself is in map order: only its length)
 		} {
 			got, err := ask(it, q)
 			// (variables bound to streams print as <stream>; S = _ keeps them out anyway)
@@ -501,6 +509,35 @@ func (c14) Exec(r *kit.Run) {
 				return kit.AtomText(x)
 			}
 			want = fmt.Sprintf("A=%s B=%s C=%s", cv("α"), cv("β"), cv("γ"))
+			if n%2 == 1 {
+				// the same through an enumeration of the whole table
+				var pairs []string
+				for _, x := range c14Latin {
+					if y, ok := m.conv[x]; ok && y != x {
+						pairs = append(pairs, "c("+kit.AtomText(x)+","+kit.AtomText(y)+")")
+					}
+				}
+				sort.Strings(pairs)
+				q = "findall(c(X, Y), (current_char_conversion(X, Y), X \\== Y), Tmp), sort(Tmp, L)"
+				want = "" // compared below
+				got, err := ask(it, q)
+				r.Logf("%d observe interpreter %d: %s -> %s", n, op.J, q, got)
+				i1, i2 := strings.Index(got, "L=["), strings.Index(got, "]")
+				if err != nil || i1 < 0 || i2 < i1 {
+					kit.Bug("c14 conv enumeration: %q %v", got, err)
+				}
+				i2 = strings.LastIndex(got, "]")
+				var have []string
+				if inner := got[i1+3 : i2]; inner != "" {
+					have = strings.Split(strings.ReplaceAll(inner, "),c(", ");c("), ";")
+				}
+				sort.Strings(have)
+				if !kit.SameList(have, pairs) {
+					c14Fail(r, changed, "conv", op, its, fmt.Sprintf("the enumeration of current_char_conversion/2 shows %v, its own history gives %v", have, pairs))
+					return
+				}
+				continue
+			}
 		case "who":
 			q = "catch(findall(X, who(X), L), error(existence_error(_, _), _), L = none)"
 			want = "L=none X=_A"
